@@ -82,6 +82,19 @@ def _models(c, tier):
     ab.sort(key=lambda g: json.dumps(g, sort_keys=True))
     ab = random.Random(c.seed).sample(ab, min(80 if tier == "quick" else 2500, len(ab)))
     gen += ab
+    # the SAME enumerated histories on shifted channels: a seeded sample is replayed a second time with the encoder's
+    # numbers / times shifted (number-shifted ahead / behind / counting from 1, time-shifted, startNr 0 / 1)
+    rnd = random.Random(c.seed + 17)
+    shifts = [dict(base=20, k=3, toff=0, startNr=0), dict(base=20, k=-2, toff=0, startNr=0), dict(base=20, k=-19, toff=0, startNr=0),
+              dict(base=20, k=0, toff=30000, startNr=0), dict(base=20, k=2, toff=60000, startNr=1), dict(base=20, k=4, toff=0, startNr=1),
+              dict(base=20, k=1, toff=0, startNr=1), dict(base=20, k=45, toff=0, startNr=0)]
+    extra = []
+    for g in rnd.sample(gen, min(40 if tier == "quick" else 800, len(gen))):
+        g2 = dict(g)
+        g2["shift"] = rnd.choice(shifts)
+        extra.append(g2)
+    c.extra["tlc_histories_replayed_on_shifted_channels"] = len(extra)
+    gen += extra
     return gen, exhaustive, pending
 
 
@@ -113,10 +126,11 @@ def _enrich(events, failures):
             hk = e["hook"]
             if e["kind"] == "media" and e["status"] != 200 and e.get("nproc", 0) > 0:
                 # refused after its first fragment had been taken: the handler has already made room for it
-                cur["refused"].append((ln, e["track"], e["n"]))
+                cur["refused"].append((ln, e["track"], e["sn"]))
             if e["kind"] == "media" and e["status"] == 200:
-                cur["ups"].setdefault(e["track"], []).append((ln, e["n"], cur["startedPrev"]))
-                cur["maxSeen"] = max(cur["maxSeen"], e["n"])
+                # numbers are the STORED numbers (renumbered on a shifted channel)
+                cur["ups"].setdefault(e["track"], []).append((ln, e["sn"], cur["startedPrev"]))
+                cur["maxSeen"] = max(cur["maxSeen"], e["sn"])
             if hk["have"]:
                 if hk["started"] and cur["start"] is None:
                     cur["start"] = {"line": ln, "cfill": hk["cfill"], "clen": hk["clen"], "fill": dict(hk["fill"]),
@@ -152,9 +166,9 @@ def _enrich(events, failures):
             f["stale_buf"] = bool(st and st["prefill"].get(t, -1) > h["window"])
             f["stale_ctr"] = bool(st and st["cfill"] > st["clen"])
             f["jump_ge_window"] = bool(snap["maxSeenBefore"] and e["n"] - snap["maxSeenBefore"] >= snap["windowBefore"])
-        elif clause == "C17.bounded.counters":
+        if clause == "C17.bounded.counters":
             f["stale_ctr"] = bool(st and st["cfill"] > st["clen"])
-        elif clause == "C17.bounded.files":
+        if clause == "C17.bounded.files":
             # why is the directory over-full: for every file outside the retention window, was the upload that
             # triggers its deletion (number + maxBuf, stored while the window was known, after the file) ever seen?
             t = e["track"]
@@ -168,7 +182,17 @@ def _enrich(events, failures):
                     failed.append(n)
             f["stale_files"] = stale[:20]
             f["orphan_cause"] = "deleter_failed" if failed else ("no_trigger" if stale else "window_too_large")
-        elif clause == "C17.listed.files":
+        if clause in ("C17.stored", "C17.listed.decoded"):
+            # the stored segment <track>/<k> was (partly) overwritten by a later REFUSED upload of the same stored number
+            try:
+                d = json.loads(f.get("detail") or "[]")
+                tk = d[d.index("track") + 1] if "track" in d else d[d.index("rep") + 1]
+                k = d[d.index("n") + 1]
+            except Exception:
+                tk = k = None
+            acc = max((l for (l, m, _) in cur["ups"].get(tk, []) if m == k and l <= f["line"]), default=0)
+            f["overwritten_by_refused_upload"] = bool(acc and any(acc < l <= f["line"] and t == tk and m == k for (l, t, m) in cur["refused"]))
+        if clause == "C17.listed.files":
             try:
                 d = json.loads(f.get("detail") or "[]")
                 rep = d[d.index("rep") + 1]
@@ -208,9 +232,14 @@ def _fidelity(c, events, preds):
             same = p["panic"] and WHY_FN.get(p["why"]) == e["fn"]
             reproduced += 1 if same else 0
         else:
-            same = (not p["panic"]) and list(p["mpd"]) == list(e["range"])
-            if same and e["hookSeen"]:
-                same = p["latest"] == e["latest"] and p["started"] == e["started"] and \
+            # a channel in shifted mode renumbers (and forgets what it had before it tuned in): the explorer's numbers
+            # are the logical ones, only "no panic / started" are comparable
+            off = e.get("off", 0)   # not in shifted mode: stored number = logical number + base + k - startNr
+            same = (not p["panic"]) and (e.get("shifted") or [x + off for x in p["mpd"]] == list(e["range"]))
+            if same and e["hookSeen"] and e.get("shifted"):
+                same = p["started"] == e["started"]
+            elif same and e["hookSeen"]:
+                same = p["latest"] + (off if p["latest"] else 0) == e["latest"] and p["started"] == e["started"] and \
                     (not p["started"] or p["nrTracks"] == e["nrTracks"])
         if not same:
             mism += 1
@@ -247,7 +276,7 @@ def run(tier, replay=None):
     with open(genf, "w") as f:
         for g in gen:
             f.write(json.dumps(g) + "\n")
-    n = 170 if tier == "quick" else 1500
+    n = 150 if tier == "quick" else 1500
     args = ["-gen", genf, "-seed", c.seed, "-n", n]
     hists = c.work / "hists.ndjson"
     vlib.run_driver(drive, ["-plan", hists] + args)
